@@ -73,7 +73,7 @@ func NewIntFromString(typ *types.IntType, s string) (*Int, error) {
 		if x == nil {
 			return nil, errors.Errorf("unable to parse integer constant %q", s)
 		}
-		return &Int{Typ: typ, X: x}, nil
+		return &Int{Typ: typ, X: boolValue(typ, x)}, nil
 	// signed hexadecimal integer literal
 	case strings.HasPrefix(s, "s0x"):
 		// Parse signed hexadecimal integer literal in two's complement notation.
@@ -106,12 +106,13 @@ func NewIntFromString(typ *types.IntType, s string) (*Int, error) {
 	return &Int{Typ: typ, X: boolValue(typ, x)}, nil
 }
 
-// boolValue returns 1 for the signed spelling -1 of the 1-bit value true (e.g.
-// `i1 -1`), so that it is the same constant as `i1 true` and `i1 1`; any other
-// value is returned as is.
+// boolValue returns the 1-bit value denoted by an integer literal of type i1:
+// LLVM truncates integer literals to the width of their type, so `i1 -1` and
+// `i1 7` are the same constant as `i1 true`, and `i1 8` is `i1 false`. Values of
+// other types are returned as is.
 func boolValue(typ *types.IntType, x *big.Int) *big.Int {
-	if typ.BitSize == 1 && x.IsInt64() && x.Int64() == -1 {
-		return big.NewInt(1)
+	if typ.BitSize == 1 && (x.Sign() < 0 || x.BitLen() > 1) {
+		return big.NewInt(int64(x.Bit(0)))
 	}
 	return x
 }
@@ -133,15 +134,13 @@ func (c *Int) Ident() string {
 	if c.Typ.BitSize == 1 {
 		// "true"
 		// "false"
-		switch x := c.X.Int64(); x {
-		case 0:
-			return "false"
-		case 1, -1:
-			// Note, -1 is the signed reading of the 1-bit value 1 (e.g. `i1 -1`).
+		// The value of an i1 constant is its low bit (LLVM truncates integer
+		// literals to the width of their type); e.g. -1 is the signed reading
+		// of the 1-bit value 1.
+		if c.X.Bit(0) == 1 {
 			return "true"
-		default:
-			panic(fmt.Errorf("invalid integer value of boolean type; expected 0, 1 or -1, got %d", x))
 		}
+		return "false"
 	}
 	// Output x in hexadecimal notation if x is positive, greater than or equal
 	// to 0x1000 and has a significantly lower entropy than decimal notation.
